@@ -127,24 +127,30 @@ Inductive act :=
 
 Inductive op :=
 | Do (a : act)
-| Resp (id : Z) (k : kind)       (* a ServiceResponse{ReqId: id} is processed *)
+| Resp (id : Z) (k : kind)       (* a ServiceResponse{ReqId: id} is processed (by the live incarnation) *)
 | RespNotify                     (* the peer answers a notification through Service.Response: suppressed *)
 | RespNoSender (id : Z)          (* the peer answers a sender-less request: suppressed *)
-| Tick (hint : list Z)           (* the 1s timer fires (if armed): checkExpired at the current clock *)
-| TickReal (hint : list Z)       (* the real timer is left running until it disarms: two scans *)
+| Tick (hint : list Z)           (* the 1s timers fire: checkExpired of every incarnation whose timer is armed *)
+| TickReal (hint : list Z)       (* the real timers are left running until they disarm: two rounds of scans *)
 | Advance (dt : Z)
 | SetNext (v : Z)                (* test set-up: allocator position, only while nothing is pending *)
 | Via (v : Z)                    (* test set-up: HOW later requests reach the peer (direct PID / node-level
                                     app.Request routed by the default route / by a registered route function);
                                     invisible to the requesting side, so a no-op here *)
-| DirectNotify (u : Z).          (* a sender-less notification is sent to the peer from outside any service
+| DirectNotify (u : Z)           (* a sender-less notification is sent to the peer from outside any service
                                     (service.DirectSendNotify): does not touch the requesting service *)
+| Crash.                         (* a handler of the requesting service panics: the supervisor restarts the
+                                    actor, the producer builds a FRESH Service (next incarnation) *)
 
+(* Request ids in events and in the pending table are KEYS: incarnation * (M + 1) + id, so that
+   the requests of different incarnations - which do reuse the same ids - stay apart.  A
+   response carries a bare id; the key it addresses is that id in the LIVE incarnation. *)
 Inductive ev :=
-(* markers: every operation starts with exactly one *)
+(* markers: every operation (every scan of a Tick) starts with exactly one *)
 | EDo | EIdle
+| ECrash                         (* the actor was restarted: from here on a new incarnation is live *)
 | EResp (id : Z) (k : kind)
-| ETick (now : Z)                (* the scan ran, at clock now *)
+| ETick (now : Z)                (* a scan ran, at clock now *)
 (* what the service did *)
 | EIssue (tag id now : Z)        (* wait registered under id at clock now (deadline now + Timeout) *)
 | EClash (id span : Z)           (* ghost: that registration overwrote a live entry allocated span allocations ago *)
@@ -155,27 +161,55 @@ Inductive ev :=
 
 Record entry := mkE { e_dl : Z; e_tag : Z; e_ser : Z; e_prog : list act }.
 
+(* The actor's state across restarts.  Every incarnation is one service.Service object with
+   its own Handlers, nextId and timer; a restart does not destroy the old object (its armed
+   timer, which lives in the run service shared by all incarnations, keeps a reference) - it
+   only stops messages from reaching it.  [pending] is the union of all Handlers tables by
+   key; [next], [armed] (and the ghost [nalloc]) are those of the incarnation IN FOCUS - the
+   one whose code is running - and [rest] keeps them for the others. *)
 Record st := mkS {
-  pending : alist entry;   (* Handlers *)
-  next : Z;                (* nextId *)
-  armed : bool;            (* timerCheckExpired > 0 *)
-  clock : Z;               (* common.NowMs() *)
-  ntags : Z;               (* ghost *)
-  nalloc : Z               (* ghost *)
+  pending : alist entry;          (* Handlers of all incarnations, by key *)
+  next : Z;                       (* nextId (incarnation in focus) *)
+  armed : bool;                   (* timerCheckExpired > 0 (incarnation in focus) *)
+  clock : Z;                      (* common.NowMs() *)
+  ntags : Z;                      (* ghost *)
+  nalloc : Z;                     (* ghost: allocations of the incarnation in focus *)
+  foc : Z;                        (* the incarnation in focus *)
+  cur : Z;                        (* the live incarnation = number of restarts so far *)
+  rest : alist (Z * bool * Z)     (* (nextId, timer flag, allocations) of incarnations when last out of focus *)
 }.
 
 Definition set_pending (s : st) (m : alist entry) : st :=
-  mkS m (next s) (armed s) (clock s) (ntags s) (nalloc s).
+  mkS m (next s) (armed s) (clock s) (ntags s) (nalloc s) (foc s) (cur s) (rest s).
 Definition set_next (s : st) (v : Z) : st :=
-  mkS (pending s) v (armed s) (clock s) (ntags s) (nalloc s).
+  mkS (pending s) v (armed s) (clock s) (ntags s) (nalloc s) (foc s) (cur s) (rest s).
 Definition set_armed (s : st) (b : bool) : st :=
-  mkS (pending s) (next s) b (clock s) (ntags s) (nalloc s).
+  mkS (pending s) (next s) b (clock s) (ntags s) (nalloc s) (foc s) (cur s) (rest s).
 Definition set_clock (s : st) (c : Z) : st :=
-  mkS (pending s) (next s) (armed s) c (ntags s) (nalloc s).
+  mkS (pending s) (next s) (armed s) c (ntags s) (nalloc s) (foc s) (cur s) (rest s).
 Definition set_ntags (s : st) (n : Z) : st :=
-  mkS (pending s) (next s) (armed s) (clock s) n (nalloc s).
+  mkS (pending s) (next s) (armed s) (clock s) n (nalloc s) (foc s) (cur s) (rest s).
+Definition set_cur (s : st) (c : Z) : st :=
+  mkS (pending s) (next s) (armed s) (clock s) (ntags s) (nalloc s) (foc s) c (rest s).
 
-Definition init : st := mkS [] 0 false Clock0 0 0.
+Definition init : st := mkS [] 0 false Clock0 0 0 0 0 [].
+
+(* (nextId, timer flag, allocations) of incarnation j; an incarnation never seen is a fresh Service *)
+Definition view (s : st) (j : Z) : Z * bool * Z :=
+  if j =? foc s then (next s, armed s, nalloc s)
+  else match aget j (rest s) with Some p => p | None => (0, false, 0) end.
+
+Definition armed_of (s : st) (j : Z) : bool := snd (fst (view s j)).
+Definition next_of (s : st) (j : Z) : Z := fst (fst (view s j)).
+
+(* put incarnation j in focus: park the one in focus, take j's values out *)
+Definition park (s : st) : alist (Z * bool * Z) := aset (foc s) (next s, armed s, nalloc s) (rest s).
+
+Definition focus (s : st) (j : Z) : st :=
+  match aget j (park s) with
+  | Some (n, a, c) => mkS (pending s) n a (clock s) (ntags s) c j (cur s) (park s)
+  | None => mkS (pending s) 0 false (clock s) (ntags s) 0 j (cur s) (park s)
+  end.
 
 Definition isnil {A} (l : list A) : bool := match l with [] => true | _ => false end.
 
@@ -186,18 +220,36 @@ Fixpoint dedup (seen l : list Z) : list Z :=
   | x :: r => if zmem x seen then dedup seen r else x :: dedup (x :: seen) r
   end.
 
+(* the incarnations so far, oldest first *)
+Definition incs (s : st) : list Z := map Z.of_nat (seq 0 (S (Z.to_nat (cur s)))).
+
 Section WithMax.
   Variable M : Z.   (* MaxReqId; a parameter so that the wrap can be exhibited with a small one *)
+
+  Definition Span : Z := M + 1.
+  Definition key (j id : Z) : Z := j * Span + id.
+  Definition inc_of (k : Z) : Z := k / Span.
+  Definition wid (k : Z) : Z := k mod Span.
+
+  (* the key a response with request id [id] addresses when incarnation c processes it; ids no
+     request can carry (outside 1..M: never in any table) get an injective negative code *)
+  Definition rkey (c id : Z) : Z :=
+    if (1 <=? id) && (id <=? M) then key c id
+    else if id <=? 0 then 2 * id - 1 else - 2 * id.
+
+  (* the Handlers of incarnation j *)
+  Definition block (j : Z) (m : alist entry) : alist entry :=
+    filter (fun kv => inc_of (fst kv) =? j) m.
 
   (* AllocReqId: if nextId >= MaxReqId { nextId = 0 }; nextId += 1 *)
   Definition alloc_id (n : Z) : Z := if M <=? n then 1 else n + 1.
 
-  (* doRequestEx with isRequest = true *)
+  (* doRequestEx with isRequest = true, on the incarnation in focus *)
   Definition register (s : st) (unser : bool) (p : list act) : st * list ev :=
-    let id := alloc_id (next s) in
+    let id := key (foc s) (alloc_id (next s)) in
     let t := ntags s in
     (mkS (aset id (mkE (clock s + Timeout) t (nalloc s) p) (pending s))
-         id true (clock s) (t + 1) (nalloc s + 1),
+         (alloc_id (next s)) true (clock s) (t + 1) (nalloc s + 1) (foc s) (cur s) (rest s),
      match aget id (pending s) with
      | Some v => [EClash id (nalloc s - e_ser v)]
      | None => []
@@ -230,7 +282,9 @@ Section WithMax.
         (fst r2, snd r1 ++ snd r2)
     end.
 
-  (* wait := Handlers[id]; wait.CB(c); delete(Handlers, id) *)
+  (* wait := Handlers[id]; wait.CB(c); delete(Handlers, id) - the callback's own programme acts
+     on the incarnation in focus, which is the one that issued the request (the closure
+     captured its Service) *)
   Definition fire (s : st) (id : Z) (c : cls) : st * list ev :=
     match aget id (pending s) with
     | None => (s, [])
@@ -239,14 +293,16 @@ Section WithMax.
         (set_pending (fst r) (adel id (pending (fst r))), ECb (e_tag e) c :: snd r)
     end.
 
+  (* handleResponse of the live incarnation; [id] is a key *)
   Definition handle_resp (s : st) (id : Z) (k : kind) : st * list ev :=
     match aget id (pending s) with
     | None => (s, [EResp id k; EDrop id])
     | Some _ => let r := fire s id (cls_of k) in (fst r, EResp id k :: snd r)
     end.
 
-  (* one.Timeout < now, strict *)
+  (* one.Timeout < now, strict; only the Handlers of the incarnation in focus are looked at *)
   Definition expired_b (s : st) (id : Z) : bool :=
+    (inc_of id =? foc s) &&
     match aget id (pending s) with Some e => e_dl e <? clock s | None => false end.
 
   Definition tag_is (s : st) (id t : Z) : bool :=
@@ -269,49 +325,77 @@ Section WithMax.
         (fst r2, snd r1 ++ snd r2)
     end.
 
+  (* checkExpired of the incarnation in focus *)
   Definition check_expired (s : st) (hint : list Z) : st * list ev :=
-    if isnil (pending s) then (set_armed s false, []) else fire_all s (order hint s).
+    if isnil (block (foc s) (pending s)) then (set_armed s false, []) else fire_all s (order hint s).
 
+  (* the timer of the incarnation in focus fires, if it is armed *)
   Definition tick (s : st) (hint : list Z) : st * list ev :=
     if armed s
     then let r := check_expired s hint in (fst r, ETick (clock s) :: snd r)
     else (s, [EIdle]).
 
+  (* the timers of the given incarnations, one after the other *)
+  Fixpoint tick_all (s : st) (js : list Z) (hint : list Z) : st * list ev :=
+    match js with
+    | [] => (s, [])
+    | j :: r =>
+        let r1 := tick (focus s j) hint in
+        let r2 := tick_all (fst r1) r hint in
+        (fst r2, snd r1 ++ snd r2)
+    end.
+
+  (* one second passes: the timer of every incarnation, oldest first (any order is possible in
+     reality; the timers of different incarnations do not see each other's tables), then the
+     live incarnation is back in focus *)
+  Definition tick_op (s : st) (hint : list Z) : st * list ev :=
+    let r := tick_all s (incs s) hint in (focus (fst r) (cur s), snd r).
+
+  (* the supervisor restarts the actor: a fresh Service becomes the live incarnation; nothing
+     of the old one is touched *)
+  Definition crash (s : st) : st * list ev :=
+    (set_cur (focus s (cur s + 1)) (cur s + 1), [ECrash]).
+
+  (* between operations the live incarnation is in focus *)
   Definition step (s : st) (o : op) : st * list ev :=
     match o with
     | Do a => let r := exec a s in (fst r, EDo :: snd r)
-    | Resp id k => handle_resp s id k
+    | Resp id k => handle_resp s (rkey (cur s) id) k
     | RespNotify => (s, [EIdle])
     | RespNoSender _ => (s, [EIdle])
-    | Tick h => tick s h
+    | Tick h => tick_op s h
     | TickReal h =>
-        let r1 := tick s h in
-        let r2 := tick (fst r1) [] in
+        let r1 := tick_op s h in
+        let r2 := tick_op (fst r1) [] in
         (fst r2, snd r1 ++ snd r2)
     | Advance dt => (if 0 <=? dt then set_clock s (clock s + dt) else s, [EIdle])
     | SetNext v =>
         (if (0 <=? v) && (v <=? M) && isnil (pending s) then set_next s v else s, [EIdle])
     | Via _ => (s, [EIdle])
     | DirectNotify _ => (s, [EIdle])
+    | Crash => crash s
     end.
 
-  (* per-operation observation: events, pending ids (ascending), timer flag, number of
-     ServiceResponse messages that reached the service, (id, tag) pairs the peer received,
-     "every callback ran on the service loop goroutine" (measured; the model says true) *)
-  Inductive obs := Obs (evs : list ev) (pend : list Z) (arm : bool) (got : Z)
+  (* per-operation observation: events, pending keys of all incarnations (ascending), timer flag
+     of every incarnation (oldest first), number of ServiceResponse messages that reached the
+     service, (id, tag) pairs the peer received, "every callback ran on the service loop
+     goroutine" (measured; the model says true) *)
+  Inductive obs := Obs (evs : list ev) (pend : list Z) (arms : list bool) (got : Z)
                        (peer : list (Z * Z)) (onloop : bool).
 
   Fixpoint sent_of (l : list ev) : list (Z * Z) :=
     match l with
     | [] => []
-    | ESent id t :: r => (id, t) :: sent_of r
+    | ESent id t :: r => (wid id, t) :: sent_of r
     | _ :: r => sent_of r
     end.
 
   Definition got_of (o : op) : Z := match o with Resp _ _ => 1 | _ => 0 end.
 
+  Definition arms_of (s : st) : list bool := map (armed_of s) (incs s).
+
   Definition observe (o : op) (r : st * list ev) : obs :=
-    Obs (snd r) (akeys (pending (fst r))) (armed (fst r)) (got_of o) (sent_of (snd r)) true.
+    Obs (snd r) (akeys (pending (fst r))) (arms_of (fst r)) (got_of o) (sent_of (snd r)) true.
 
   Fixpoint run_from (s : st) (ops : list op) : st * list (list ev) :=
     match ops with
